@@ -396,7 +396,36 @@ pub fn check(c: &Case) -> Outcome {
                 let k = full.t.iter().zip(&bnd.t).position(|(a, b)| a.to_bits() != b.to_bits());
                 return Outcome::viol(format!("{}: the same Jacobian in Full and Banded{{ml:{},mu:{}}} storage gives different trajectories (n={}, status {} vs {}, steps {} vs {}, first differing sample {:?})", name, dl, du, n, status_name(full.status), status_name(bnd.status), full.naccpt, bnd.naccpt, k));
             }
-            Outcome::pass(format!("{}:jac-storage", name), ml + 1 < *n || mu + 1 < *n, json!({"n": n, "ml": ml, "mu": mu, "naccpt": full.naccpt}))
+            // Radau with a mass matrix that has entries OUTSIDE the Jacobian's band (the first diagonals beyond it):
+            // the iteration matrices fac*M - J then have a wider band than J; Full and Banded Jacobian storage must
+            // still give the same run
+            let mut mass_checked = false;
+            if c.method == Meth::RADAU && *n >= 2 && (ml + 1 < *n || mu + 1 < *n) {
+                let nn = *n;
+                let mut m = Matrix::zeros(nn, nn);
+                for i in 0..nn {
+                    m[(i, i)] = 2.0;
+                    if i + mu + 1 < nn {
+                        m[(i, i + mu + 1)] = 0.5;
+                    }
+                    if i >= ml + 1 {
+                        m[(i, i - ml - 1)] = -0.4;
+                    }
+                }
+                let mf = solve_with(&rhs, c, &y0b, true, None, Some(&m), &Extra { jac_storage: Some(MatrixStorage::Full), mass_storage: Some(MatrixStorage::Full), ..Default::default() });
+                let mb = solve_with(&rhs, c, &y0b, true, Some((ml, mu)), Some(&m), &Extra { jac_storage: Some(MatrixStorage::Banded { ml, mu }), mass_storage: Some(MatrixStorage::Full), ..Default::default() });
+                match (mf, mb) {
+                    (Ok(a), Ok(b)) => {
+                        if !same(&a, &b) {
+                            return Outcome::viol(format!("RADAU with a mass matrix reaching beyond the Jacobian's band: Full and Banded{{ml:{},mu:{}}} Jacobian storage give different runs (n={}, {} / {} steps vs {} / {} steps)", ml, mu, nn, status_name(a.status), a.naccpt, status_name(b.status), b.naccpt));
+                        }
+                        mass_checked = true;
+                    }
+                    (Ok(a), Err(e)) => return Outcome::viol(format!("RADAU with a mass matrix reaching beyond the Jacobian's band: Full Jacobian storage gives {}, Banded{{{},{}}} gives {}", status_name(a.status), ml, mu, e)),
+                    _ => {}
+                }
+            }
+            Outcome::pass(format!("{}:jac-storage", name), ml + 1 < *n || mu + 1 < *n, json!({"n": n, "ml": ml, "mu": mu, "naccpt": full.naccpt, "mass_beyond_band_checked": mass_checked as u8}))
         }
         Kind::IdentityMass => {
             let id = Matrix::identity(n);
